@@ -231,7 +231,10 @@ def sets_best(tree: ast.Module) -> bool:
 
 
 def default_box(src: str):
-    """`bounds=[bounds.get(name, (lo, hi)) for name in p0]` in LocalScipyMinimizer.__call__ -> (lo, hi)"""
+    """the boxes LocalScipyMinimizer.__call__ hands to scipy -> (lo, hi, only_if_inside):
+    `bounds=[bounds.get(name, (lo, hi)) for name in p0]` (pinned: the default box for every name without bounds) or, with
+    `default = (lo, hi)` before it, `bounds=[bounds.get(name, default if default[0] <= value <= default[1] else (None, None))
+    for name, value in p0.items()]` (the default box only for a start value inside it; otherwise no box)"""
     tree = ast.parse(src)
     cls = next((n for n in tree.body if isinstance(n, ast.ClassDef) and n.name == "LocalScipyMinimizer"), None)
     if cls is None:
@@ -243,15 +246,28 @@ def default_box(src: str):
         if isinstance(node, ast.Call) and ast.unparse(node.func) == "minimize":
             kw = {k.arg: k.value for k in node.keywords}
             b = kw.get("bounds")
-            if (isinstance(b, ast.ListComp) and len(b.generators) == 1 and not b.generators[0].ifs
-                    and ast.unparse(b.generators[0].iter) == "p0" and isinstance(b.generators[0].target, ast.Name)
-                    and isinstance(b.elt, ast.Call) and ast.unparse(b.elt.func) == "bounds.get" and len(b.elt.args) == 2
-                    and ast.unparse(b.elt.args[0]) == b.generators[0].target.id):
+            if ast.unparse(kw.get("x0")) != "list(p0.values())":
+                raise Unsupported("x0 is not list(p0.values())")
+            if not (isinstance(b, ast.ListComp) and len(b.generators) == 1 and not b.generators[0].ifs
+                    and isinstance(b.elt, ast.Call) and ast.unparse(b.elt.func) == "bounds.get" and len(b.elt.args) == 2):
+                raise Unsupported("bounds= of the minimize call changed shape: " + (ast.unparse(b) if b is not None else "missing"))
+            gen = b.generators[0]
+            if (ast.unparse(gen.iter) == "p0" and isinstance(gen.target, ast.Name) and ast.unparse(b.elt.args[0]) == gen.target.id):
                 lo, hi = ast.literal_eval(b.elt.args[1])
-                if ast.unparse(kw.get("x0")) != "list(p0.values())":
-                    raise Unsupported("x0 is not list(p0.values())")
-                return Fraction(repr(float(lo))), Fraction(repr(float(hi)))
-            raise Unsupported("bounds= of the minimize call changed shape: " + (ast.unparse(b) if b is not None else "missing"))
+                return Fraction(repr(float(lo))), Fraction(repr(float(hi))), False
+            if (ast.unparse(gen.iter) == "p0.items()" and isinstance(gen.target, ast.Tuple) and len(gen.target.elts) == 2
+                    and all(isinstance(e, ast.Name) for e in gen.target.elts)):
+                nm, val = (e.id for e in gen.target.elts)
+                d = ast.unparse(b.elt.args[1])
+                dname = d.split(" ", 1)[0]
+                if ast.unparse(b.elt.args[0]) != nm or d != f"{dname} if {dname}[0] <= {val} <= {dname}[1] else (None, None)":
+                    raise Unsupported("default of bounds.get: " + d)
+                assign = next((st for st in call.body if isinstance(st, ast.Assign) and ast.unparse(st.targets[0]) == dname), None)
+                if assign is None:
+                    raise Unsupported(f"no `{dname} = (lo, hi)` before the minimize call")
+                lo, hi = ast.literal_eval(assign.value)
+                return Fraction(repr(float(lo))), Fraction(repr(float(hi))), True
+            raise Unsupported("bounds= of the minimize call changed shape: " + ast.unparse(b))
     raise Unsupported("no minimize(...) call in LocalScipyMinimizer.__call__")
 
 
@@ -330,6 +346,29 @@ def global_box(src: str, lo, hi) -> bool:
     raise Unsupported(f"no `{local} = ...` in GlobalScipyMinimizer.__call__")
 
 
+BASINHOPPING_KW = "{'bounds': [bounds.get(name, (None, None)) for name in p0]} if bounds else None"
+
+
+def basinhopping_bounded(src: str) -> bool:
+    """does the basinhopping call hand the caller's bounds to its local steps (`minimizer_kwargs=` of exactly this
+    form: the caller's box for a name that has one, no box otherwise, nothing at all without bounds)?  no such keyword
+    -> False (pinned tree: bounds ignored); another form refuses"""
+    tree = ast.parse(src)
+    cls = next(n for n in tree.body if isinstance(n, ast.ClassDef) and n.name == "GlobalScipyMinimizer")
+    call = next(n for n in cls.body if isinstance(n, ast.FunctionDef) and n.name == "__call__")
+    for node in ast.walk(call):
+        if isinstance(node, ast.Call) and ast.unparse(node.func) == "basinhopping":
+            kw = {k.arg: k.value for k in node.keywords}
+            if ast.unparse(kw.get("x0")) != "list(p0.values())":
+                raise Unsupported("basinhopping: x0 is not list(p0.values())")
+            if "minimizer_kwargs" not in kw:
+                return False
+            if ast.unparse(kw["minimizer_kwargs"]) != BASINHOPPING_KW:
+                raise Unsupported("basinhopping: minimizer_kwargs = " + ast.unparse(kw["minimizer_kwargs"]))
+            return True
+    raise Unsupported("no basinhopping(...) call in GlobalScipyMinimizer.__call__")
+
+
 def render(repo: Path) -> str:
     losses_src = (repo / "src/mxlpy/fit/losses.py").read_text()
     tree = ast.parse(losses_src)
@@ -342,9 +381,10 @@ def render(repo: Path) -> str:
         needs[fn.name] = cls
     guard = check_settings((repo / "src/mxlpy/fit/abstract.py").read_text())
     defaults = check_routines((repo / "src/mxlpy/fit/routines.py").read_text())
-    lo, hi = default_box((repo / "src/mxlpy/minimizers/_scipy.py").read_text())
+    lo, hi, inside = default_box((repo / "src/mxlpy/minimizers/_scipy.py").read_text())
     gbox = global_box((repo / "src/mxlpy/minimizers/_scipy.py").read_text(), lo, hi)
     uorder = update_order((repo / "src/mxlpy/fit/routines.py").read_text())
+    bhb = basinhopping_bounded((repo / "src/mxlpy/minimizers/_scipy.py").read_text())
     shipped = ", ".join(f'"{n}"' for n in sorted(names))
     rat_ok = [n for n in names if set(needs[n]) <= {"HasAbs"}]
     rat_cases = "\n".join(f'  | "{n}" => some ({n} d p)' for n in sorted(rat_ok))
@@ -372,8 +412,12 @@ def render(repo: Path) -> str:
         f"def defaultBox : Rat × Rat := (({lo.numerator} : Rat) / {lo.denominator}, ({hi.numerator} : Rat) / {hi.denominator})\n\n"
         "/-- the order in which every residual function writes into the model before it simulates -/\n"
         f"def updateOrder : List String := [{', '.join(chr(34) + x + chr(34) for x in uorder)}]\n\n"
+        "/-- basinhopping's local steps get the caller's boxes (names without one stay free; no bounds, no boxes) -/\n"
+        f"def basinhoppingBounded : Bool := {'true' if bhb else 'false'}\n\n"
         "/-- GlobalScipyMinimizer hands scipy one box per entry of p0 (the caller's, or the default box) -/\n"
         f"def globalUsesBox : Bool := {'true' if gbox else 'false'}\n\n"
+        "/-- LocalScipyMinimizer applies its default box only to a start value that lies inside it (no box otherwise) -/\n"
+        f"def localBoxOnlyIfInside : Bool := {'true' if inside else 'false'}\n\n"
         "/-- the losses that need no sqrt/log, evaluated at Rat by the driver -/\n"
         "def evalRat (name : String) (d p : List Rat) : Option Rat :=\n  match name with\n"
         + rat_cases + "\n  | _ => none\n\n"
@@ -403,6 +447,8 @@ def generate(repo: Path, outdir: Path) -> None:
                               "def fitSetsBest : Bool := false\n"
                               "def globalUsesBox : Bool := false\n"
                               "def updateOrder : List String := []\n"
+                              "def basinhoppingBounded : Bool := false\n"
+                              "def localBoxOnlyIfInside : Bool := false\n"
                               "def settingsLoss {α : Type} [Sub α] [Div α] [LT α] [DecidableLT α] [NatCast α]\n"
                               "    (lossFn : List α → List α → α) (standardScale : Bool) (mean scale : α) (data prediction : List α) : α :=\n"
                               "  scaledLoss false lossFn standardScale mean scale data prediction\n"
